@@ -97,6 +97,19 @@ func formatInteger(f fmt.State, c rune, neg bool, u uint64) {
 	}
 }
 
+// formatPadded writes s with the blanks that fill the width of the directive; C counts bytes
+func formatPadded(f fmt.State, s string) {
+	pad := 0
+	if w, ok := f.Width(); ok && w > len(s) {
+		pad = w - len(s)
+	}
+	if f.Flag('-') {
+		io.WriteString(f, s+strings.Repeat(" ", pad))
+	} else {
+		io.WriteString(f, strings.Repeat(" ", pad)+s)
+	}
+}
+
 // unsignedFmtState hides the flags '+' and ' ': C ignores them for an unsigned conversion
 type unsignedFmtState struct{ fmt.State }
 
